@@ -9,8 +9,8 @@
    the parser model accepts the formatter's tokens and returns p's own tree, with runs of blank
    statements squeezed into one empty statement as the formatter squeezes them (the stated
    normalisation; comments are outside the fragment because Parser.v's trees do not carry them).
-   _partial — fragment: the statements of [sok] (declarations, assignment to a variable, calls,
-   while, for, if / else if / else, break / return inside them), no func, no on, no a[i] = v.
+   _partial — fragment: the statements of [sok] (declarations, assignment to a variable or an index / dot target, calls,
+   while, for, if / else if / else, break / return inside them), no func, no on.
    No lexical hypothesis: that no formatted token is ILLEGAL or the keyword func (the pre-pass scans
    the raw token list for `func`) is proved from the fragment (FormatParsePlainProofs.v; the fragment's
    map keys exclude the text func, which parser.Parse cannot accept as a key for the same reason). *)
@@ -39,8 +39,7 @@ Print Assumptions C06_roundtrip_program_partial.
    the contexts threaded through blocks and else-if chains) and accept_structure (break / return
    placement, no dead code; no top-level statement always terminates).
    What remains a hypothesis is per expression, [eokb]: names are identifiers,
-   the statement forms are those of the fragment (no comments, no func / on, targets are
-   variables), blocks are not empty, and every expression is in the round-trip fragment of
+   the statement forms are those of the fragment (no comments, no func / on), blocks are not empty, and every expression is in the round-trip fragment of
    C06_roundtrip.v ([top_ok] / [item_ok]) in the context the scope checker computes for its position.
    That the callee of a call statement is in the function table with a matching argument count is
    derived from C05_scope_accept_static, given that the builtin table is consistent ([tbl_ok]: a
@@ -122,7 +121,10 @@ Example C06_program_example :
             FmtAst.SFor (Some (s_ "k"%string)) (RStep (Some (num "1"%string)) i (Some (num "2"%string))) []
               [FmtAst.SCall (s_ "print"%string) [FVar (s_ "k"%string); i] []] [];
             FmtAst.SFor None (RExpr (num "2"%string)) [] [FmtAst.SCall (s_ "print"%string) [i] []] [];
-            FmtAst.SCall (s_ "print"%string) [i] []] in
+            FmtAst.SInferredDecl (s_ "m"%string) (FMap [] [] []) [];
+            FmtAst.SAssign (FDot (FVar (s_ "m"%string)) (s_ "k"%string)) (FArr [k_el] [i]) [];
+            FmtAst.SAssign (FIdx (FDot (FVar (s_ "m"%string)) (s_ "k"%string)) (num "0"%string)) (FBin OpPlus false i (num "1"%string)) [];
+            FmtAst.SCall (s_ "print"%string) [i; FVar (s_ "m"%string)] []] in
   let toks := toks_of_pieces (fmt_prog current_fixes p) in
   parse C06_prog_B (combine toks (map (fun _ => (0, 0)) toks)) (0, 0) = Accept (body_trees false p).
 Proof. vm_compute. reflexivity. Qed.
